@@ -422,6 +422,93 @@ def sec_chain(rec, patches=None):
     rec.fact("chain/max_shifts passed unchanged (no up-sampling)", tuple(seen["landscape"][2]) == (1.5, 2, 0) and tuple(seen["optimize"][2]) == (1.5, 2, 0), key="C07/chain/max_shifts", detail={})
 
 
+def replay_cutoff(cex):
+    """installed library: with a low-pass cutoff (and a mask) an identical sub-volume scores 1 and model.score is the Pearson correlation of the
+    two images after the SAME mask + low-pass filter"""
+    from acryo.alignment import ZNCCAlignment, NCCAlignment
+    from acryo._utils import lowpass_filter
+
+    rng = np.random.default_rng(0)
+    bad = []
+    for shape in ((12, 12, 12), (10, 11, 12)):
+        t = rng.normal(size=shape).astype(np.float32)
+        a = (t + 0.5 * rng.normal(size=shape)).astype(np.float32)
+        zz = np.indices(shape)
+        mask = (sum((zz[k] - (shape[k] - 1) / 2) ** 2 for k in range(3)) < 20).astype(np.float32)
+        for cutoff in (0.15, 0.3, 0.5):
+            for M in (ZNCCAlignment, NCCAlignment):
+                for mk in (None, mask):
+                    m = M(t, mk, cutoff=cutoff)
+                    same = float(m.score(t, np.array([0, 0, 0, 1.0]), np.zeros(3)))
+                    x, y = lowpass_filter(a * (1 if mk is None else mk), cutoff), lowpass_filter(t * (1 if mk is None else mk), cutoff)
+                    if M is ZNCCAlignment:
+                        x, y = x - x.mean(), y - y.mean()
+                    ref = float((x * y).sum() / np.sqrt((x * x).sum() * (y * y).sum()))
+                    got = float(m.score(a, np.array([0, 0, 0, 1.0]), np.zeros(3)))
+                    if abs(same - 1) > 1e-3 or abs(got - ref) > 1e-3:
+                        bad.append({"model": M.__name__, "shape": list(shape), "cutoff": cutoff, "mask": mk is not None, "score_of_identical": same, "score": got, "pearson_of_filtered_images": ref})
+    return len(bad) > 0, {"n": len(bad), "examples": bad[:4]}
+
+
+def sec_cutoff(rec, patches=None):
+    """the cached template is prepared with the same low-pass cutoff (and mask) as the sub-volume that is scored against it"""
+    L = _load(patches)
+    B, CC, xp = L["acryo.alignment._base"], L["acryo.alignment._concrete"], L.xp
+    rec.encodes("acryo/alignment/_base.py:TomographyInput.__init__", "acryo/alignment/_base.py:TomographyInput.pre_transform", "acryo/alignment/_base.py:BaseAlignmentModel.__init__",
+                "acryo/alignment/_base.py:RotationImplemented._get_template_and_mask_input (cache)")
+    rec.assume("Backend.lowpass_filter_ft is recorded: it returns a tag (image, cutoff); the filter itself is C16's subject")
+
+    class LP:
+        _symx_passthrough = True
+
+        def __init__(self, img, cutoff):
+            self.img, self.cutoff = img, cutoff
+
+    xp.lowpass_filter_ft = lambda img, cutoff=None, order=2: LP(img, cutoff)
+    shape = (1, 1, 2)
+    t, t2, a, mk = img("t", shape), img("u", shape), img("a", shape), img("m", shape)
+    c = real("cutoff")
+    hyps = [c.e > 0, c.e < Fraction(4, 5)]
+    for T in (1, 2):
+        for with_mask in (False, True):
+            tag = f"cutoff[T={T},mask={int(with_mask)}]"
+
+            def run():
+                tm = t if T == 1 else [t, t2]
+                model = CC.ZNCCAlignment(tm, mk if with_mask else None, cutoff=c)
+                tin, min_ = model._get_template_and_mask_input(backend=xp)
+                sub = model.pre_transform(a * (mk if with_mask else 1), xp)
+                return tin, sub
+
+            for pi, p in enumerate(explore(run, assumptions=hyps, max_paths=10)):
+                if not p.ok:
+                    ok, det = replay_cutoff({})
+                    rec.fact(f"{tag}/path{pi}/runs", False, key="C07/cutoff/raises", detail={"exc": repr(p.exc)[:300], **det}, reproduced=ok)
+                    continue
+                tin, sub = p.result
+                h = hyps + [p.condition()]
+                tins = [tin] if isinstance(tin, LP) else list(tin) if not isinstance(tin, np.ndarray) else list(tin.reshape(-1) if tin.dtype == object else tin)
+                okst = isinstance(sub, LP) and len(tins) == T and all(isinstance(x, LP) for x in tins)
+                rec.fact(f"{tag}/path{pi}/template-and-sub-volume-go-through-the-low-pass", bool(okst), key="C07/cutoff/structure", detail={"template": repr(type(tin))}, reproduced=True if okst else replay_cutoff({})[0])
+                if not okst:
+                    continue
+                rec.query(f"{tag}/path{pi}/sub-volume-cutoff", h, zr(sub.cutoff) == c.e, key="C07/cutoff/sub-volume", replay=replay_cutoff, twin=False)
+                for j, x in enumerate(tins):
+                    rec.query(f"{tag}/path{pi}/template{j}-prepared-with-the-same-cutoff", h, zr(x.cutoff) == c.e, key="C07/cutoff/template", replay=replay_cutoff, names={"cutoff"})
+                    want = _obj(t if j == 0 else t2)
+                    got = _obj(to_symarray(x.img))
+                    M_ = _obj(mk)
+                    goal = z3.And(*[zr(got[k]) == (zr(want[k]) * zr(M_[k]) if with_mask else zr(want[k])) for k in np.ndindex(shape)]) if got.shape == tuple(shape) else z3.BoolVal(False)
+                    rec.query(f"{tag}/path{pi}/template{j}-is-template*mask", h, goal, key="C07/cutoff/template-image", replay=replay_cutoff, twin=False, nonlinear=True)
+
+
+def sec_landscape_upsampled(rec, patches=None):
+    """up-sampled landscapes with several candidates: every candidate's mesh is centred on its own landscape (executed by C04's section)"""
+    from .c04 import sec_landscape_upsampled as _s
+
+    _s(rec, kind="zncc", axis=1, K=3, patches=patches)
+
+
 def sec_constant(rec, patches=None):
     """finite score for constant / zero sub-volumes (division safety), all models, on the installed numerics"""
     for kind in ("zncc", "ncc", "pcc", "fsc"):
@@ -430,7 +517,7 @@ def sec_constant(rec, patches=None):
 
 
 def sections(tier):
-    S = [("chain", "checks.c07", "sec_chain", {})]
+    S = [("chain", "checks.c07", "sec_chain", {}), ("cutoff", "checks.c07", "sec_cutoff", {}), ("landscape-upsampled-multi", "checks.c07", "sec_landscape_upsampled", {})]
     shapes = [(1, 1, 2), (1, 2, 2), (1, 1, 3)] if quick(tier) else [(1, 1, 2), (1, 2, 2), (1, 1, 3), (2, 2, 2), (1, 2, 3), (2, 2, 3)]
     for shp in shapes:
         S.append((f"formulas-{shp}", "checks.c07", "sec_formulas", {"shape": shp}))
